@@ -88,3 +88,10 @@ package logger
 //@   prop C16
 //@   requires len(table) >= 1
 //@   loop 0 invariant 0 <= index && index < len(table) && 0 <= count && index + count <= len(table)
+
+// C16 (no crash while reporting): the tracker caches the start and the end of "the current line". Whenever the scan
+// crosses a line terminator (the line number moves) BOTH cached ends describe another line and must be rewritten in
+// the same step; a stale lineStart beyond the new offset makes computeLineAndColumn slice contents[lineStart:offset]
+// with lineStart > offset.
+//@ flow line-move-rewrites-the-cached-line-start C16: func=(*LineColumnTracker).scanTo ; in=logger ; site=store LineColumnTracker.line ; preceded-by-store=LineColumnTracker.hasLineStart:*
+//@ flow line-move-rewrites-the-cached-line-end C16: func=(*LineColumnTracker).scanTo ; in=logger ; site=store LineColumnTracker.line ; preceded-by-store=LineColumnTracker.hasLineEnd:*
